@@ -1,7 +1,8 @@
 #!/venv/bin/python
 """Regression corpus of the C08 rules (not part of check.py; run it after changing a C08 rule).
 
-Every `*.diff` next to this file is a hand-written variant of /repo's HEAD (apply with `git apply -p2`):
+Every `*.diff` next to this file is a hand-written variant of /repo's HEAD (apply with `git apply -p2`; the newer ones, whose header
+reads `a/src/...`, with -p1; `*rg*` / `*wk*` are flat enumerations of a recursive listing: rglob / glob('**') / os.walk):
 
     silent_<name>.diff      a behaviour-preserving re-write (recursive walk, generator walker in another module, filter at push time,
                             isinstance dispatch, first-match helpers, flag loops, option dataclass, build loops, ...): exit 0 expected
@@ -30,7 +31,8 @@ def one(diff: Path):
     try:
         subprocess.run(f"git -C /repo archive HEAD src docs | tar -x -C {tmp}", shell=True, check=True)
         subprocess.run(["git", "init", "-q", "."], cwd=tmp, capture_output=True)
-        r = subprocess.run(["git", "apply", "-p2", "--whitespace=nowarn", str(diff)], cwd=tmp, capture_output=True, text=True)
+        strip = "-p1" if diff.read_text().startswith("diff --git a/src") else "-p2"
+        r = subprocess.run(["git", "apply", strip, "--whitespace=nowarn", str(diff)], cwd=tmp, capture_output=True, text=True)
         if r.returncode != 0:
             return diff.name, "SKIP", "does not apply to today's /repo"
         want = diff.name.split("_", 1)[0]
